@@ -17,6 +17,9 @@ NORMAL_FORM_NOTE = (". All Python rules read the front-end normal form of the so
 # rule families added after the plan was written (appended to the technique text)
 EXTRA_TECH = {
     "C01": "; plus the rule set of C06 (scheduler order and lazy deletion)",
+    "C03": "; parity abstract interpretation of the C derivative (zero / even / odd / mixed / unknown per reflection, symmetric "
+           "lattice sums re-indexed); homogeneity degrees in the separations to derive the unit order of the multi-body tuple, checked "
+           "against the separations option of every shipped configuration",
     "C05": "; abstract reading of the selection walk over index / rate / identifier / prefix-sum streams; linear bookkeeping of the "
            "pairwise derivatives (net coefficients +1 / -1); path-wise insertion-order rule for two composite objects",
     "C06": "; three-valued reachability for the finite-time filter and the empty-heap raise; byte-count restart rule for rebuilt heaps; "
@@ -25,8 +28,14 @@ EXTRA_TECH = {
     "C08": "; scheduler lazy-deletion protocol (shared with C06) and activator pool accounting (shared with C09)",
     "C09": "; one symbolic iteration of the trash loop over list values with alias tracking; pool writers inside the creation routines; "
            "idempotence (read / write disjointness) of the tagger switch; scheduler lazy-deletion protocol (shared with C06)",
-    "C11": "; truth tables of the placement tests; abstract execution of the boundary loop for both signs of the velocity",
-    "C18": "; all comparisons after resolving locals and inlining helpers (no rule names a variable)",
+    "C10": "; may-dependence (data and control) of the active cell on the configured cell level; tagger-pool reachability of every "
+           "shipped configuration: no candidate of a cell family survives a cell crossing",
+    "C11": "; truth tables of the placement tests and of the relevance predicate over the sign of the charge; abstract execution of the "
+           "boundary loop for both signs of the velocity; loop-exit postcondition for the stored cell corners",
+    "C12": "; extraction-copy rule (shared with C13)",
+    "C14": "; no arithmetic on quotient / remainder in comparison code (Python and heap.c)",
+    "C18": "; all comparisons after resolving locals and inlining helpers (no rule names a variable); may-dependence of the offset origin "
+           "on the cell level; tagger-pool reachability: no cell-veto candidate survives a cell crossing",
     "C20": "; path-wise abstract interpretation of the parent run loop over the stage machine (stage sets refined by tests, event "
            "sequences parsed into legal steps); abstract execution of the worker loop under every event valuation; interval "
            "evaluation of semaphore permits over the domain the constructor admits",
